@@ -343,3 +343,27 @@ def classify(I):
     if len(I["types"]) > 1:
         tags.add("multi_type")
     return tags
+
+
+def complete_view(V, name=None):
+    """Turn a spec-level instance (as emitted by TLC, e.g. Gen_Tour) into a renderable one:
+    one route and one departure per trip."""
+    I = dict(V)
+    if name:
+        I["name"] = name
+    I["profile"] = "tlc"
+    routes, deps = [], []
+    for t in I["trips"]:
+        routes.append({"id": t["route"], "ty": t["ty"], "segs": [
+            {"id": t["seg"], "orig": t["orig"], "dest": t["dest"], "dur": t["dur"], "dist": t["dist"],
+             "limit": t["limit"]}]})
+        deps.append({"id": t["depId"], "route": t["route"], "segs": [
+            {"id": t["id"], "seg": t["seg"], "dep": t["dep"], "pax": t["pax"], "seated": t["seated"]}]})
+    I["_routes"] = routes
+    I["_departures"] = deps
+    I["depotsGiven"] = True
+    I["hasSlots"] = bool(I["slots"])
+    I["maintGiven"] = True
+    I["forbidGiven"] = True
+    I["mntCostGiven"] = True
+    return I
